@@ -328,6 +328,14 @@ def to_model_input(sp: Spies):
         for node, protos in res.nodes.items():
             if isinstance(node, _Introduce):
                 n_intro += 1
+                try:
+                    from spox._type_system import Optional as _OptT
+
+                    fwd_opt = any(isinstance(v.type, _OptT) for v in node.inputs.inputs)
+                except Exception:  # noqa: BLE001
+                    fwd_opt = False
+                if fwd_opt:  # its Identity nodes need opset 16: an explicit node of the model
+                    out.append({"id": nid(node), "np": len(protos), "k": "introopt"})
                 continue
             j = {"id": nid(node), "np": len(protos)}
             if isinstance(node, _Inline):
@@ -337,7 +345,7 @@ def to_model_input(sp: Spies):
                 fr = func_roots.get(gkey(node.func_graph))
                 if fr is None:
                     notes.append("function graph compile not observed")
-                j.update(k="func", d=node.op_type.domain, v=node.op_type.version,
+                j.update(k="func", d=node.op_type.domain, v=node.op_type.version, nm=node.op_type.identifier,
                          subs=[graph(fr)] if fr else [])
             elif isinstance(node, _InternalNode):
                 j.update(k="internal")
@@ -457,7 +465,7 @@ def extract_real(obs):
         last[id(rec["node"])] = k
     for k, rec in enumerate(sp.abe):
         node = rec["node"]
-        if isinstance(node, _Introduce) or last[id(node)] != k:
+        if (isinstance(node, _Introduce) and id(node) not in ids) or last[id(node)] != k:
             continue
         cls, st = real_class(rec, sp)
         item = {"id": ids.get(id(node)), "op": f"{node.op_type.identifier}@{node.op_type.version}",
@@ -492,6 +500,7 @@ def extract_real(obs):
                         collect(s_)
 
         collect(req)
+        real["func_emitted"] = [[f.domain, f.name] for f in obs["model"].functions]
         for f in obs["model"].functions:
             real["func_imports"][f"{f.domain}:{f.name}"] = [[o.domain, o.version] for o in f.opset_import]
     return real
@@ -558,6 +567,14 @@ def compare(real, m, mismatches):
             mismatches.append(("node", f"{len(missing)} model nodes never adapted by the real code"))
         if len(real["func_keys"]) != len(m["funcs"]):
             mismatches.append(("functions", f"{len(real['func_keys'])} function nodes, model lists {len(m['funcs'])}"))
+        # the loop of to_onnx_model over the functions: occurrences (keys in order) and what is emitted —
+        # one FunctionProto per (domain, name), in first-occurrence order
+        if "funcKeys" in m:
+            if real["func_keys"] != m["funcKeys"]:
+                mismatches.append(("functions", f"function occurrences {real['func_keys']}, model {m['funcKeys']}"))
+            emitted = real.get("func_emitted")
+            if emitted is not None and m.get("merged") != emitted:
+                mismatches.append(("functions", f"model.functions {emitted}, model's merge {m.get('merged')}"))
         for (dom, name), mf in zip(real["func_keys"], m["funcs"]):
             ri = real["func_imports"].get(f"{dom}:{name}")
             if ri is None:
@@ -1233,6 +1250,21 @@ def targeted_programs():
                         {"id": "b", "op": "ml_label", "mv": 4, "dv": 19, "args": ["y"]},
                         st("c", "add", 17, ["a", "b"])], "outs": ["c"]})
     P.append({"nodes": [{"id": "a", "op": "ml_scaler", "mv": 5, "dv": 17, "args": ["x"]}], "outs": ["a"]})
+    # TreeEnsemble (ai.onnx.ml 5 only): raises the ml import to 5 next to ml3 / ml4 operators, legacy ml-1 models, in bodies
+    P.append({"nodes": [{"id": "a", "op": "ml_tree", "mv": 5, "dv": 17, "args": ["x"]}], "outs": ["a"]})
+    P.append({"nodes": [{"id": "a", "op": "ml_tree", "mv": 5, "dv": 17, "args": ["x"]},
+                        {"id": "b", "op": "ml_label", "mv": 3, "dv": 19, "args": ["y"]},
+                        {"id": "c", "op": "ml_label", "mv": 4, "dv": 17, "args": ["a"]},
+                        st("d", "add", 17, ["b", "c"])], "outs": ["d"]})
+    P.append({"nodes": [{"id": "m", "op": "inline", "model": {"kind": "oldx", "body": "softmax3_reshape", "opset": 11, "ml": ["le2", 2]}, "args": ["x"]},
+                        {"id": "i", "op": "if", "mv": 17, "cond": "c",
+                         "then": {"nodes": [{"id": "t", "op": "ml_tree", "mv": 5, "dv": 17, "args": ["y"]}], "out": "t"},
+                         "else": {"nodes": [{"id": "e", "op": "ml_scaler", "mv": 3, "dv": 17, "args": ["y"]}], "out": "e"}},
+                        st("d", "add", 17, ["m", "i"]), st("g", "identity", 21, ["d"])], "outs": ["g"]})
+    P.append({"nodes": [{"id": "f", "op": "func", "name": "ftree", "params": ["p"], "args": ["x"],
+                         "body": {"nodes": [{"id": "q", "op": "ml_label", "mv": 3, "dv": 17, "args": ["p"]}], "out": "q"}},
+                        {"id": "t", "op": "ml_tree", "mv": 5, "dv": 18, "args": ["y"]},
+                        st("d", "add", 17, ["f", "t"])], "outs": ["d", "f"]})
     # a function whose body mixes versions, next to a converted node
     P.append({"nodes": [{"id": "f", "op": "func", "name": "fmix", "params": ["p"], "args": ["x"],
                          "body": {"nodes": [st("q", "rmean", 17, ["p"], axis=0), st("r", "rmax", 18, ["q"], axis=1)], "out": "r"}},
@@ -1377,6 +1409,106 @@ def check_policy(ck, drv, mismatches):
     return len(reqs_list)
 
 
+OPTIONAL_CASES = ("optional-output", "optional-from-if", "optional-intros", "optional-inside-only", "tensor-only",
+                  "optional-through-inline", "optional-output-v21")
+
+
+def build_optional_case(name):
+    """Small real programs around the floor: (inputs, outputs, expects an optional value forwarded by an _Introduce)."""
+    import spox.opset.ai.onnx.v17 as op
+    import spox.opset.ai.onnx.v21 as op21
+    from spox import Tensor, argument, inline
+
+    x = argument(Tensor(np.float32, (2, 3)))
+    c = argument(Tensor(np.bool_, ()))
+    if name == "optional-output":
+        return {"x": x}, {"o": op.optional(x)}, True
+    if name == "optional-output-v21":
+        return {"x": x}, {"o": op21.optional(op21.identity(x))}, True
+    if name == "optional-from-if":
+        r = op.if_(c, then_branch=lambda: [op.optional(op.abs(x))], else_branch=lambda: [op.optional(op.neg(x))])[0]
+        return {"x": x, "c": c}, {"o": op.optional_get_element(r)}, True
+    if name == "optional-intros":
+        from spox._internal_op import intros
+
+        o = intros(op.optional(x))[0]
+        return {"x": x}, {"o": op.optional_get_element(o)}, True
+    if name == "optional-inside-only":
+        return {"x": x}, {"o": op.optional_get_element(op.optional(x))}, False
+    if name == "tensor-only":
+        return {"x": x}, {"o": op.abs(x)}, False
+    if name == "optional-through-inline":
+        # a model whose output IS its optional-typed input: _Inline forwards it with an Identity (not in the Lean model)
+        import onnx
+        from onnx import TensorProto as TP
+        from onnx import helper as h
+
+        t = h.make_optional_type_proto(h.make_tensor_type_proto(TP.FLOAT, [2, 3]))
+        g = h.make_graph([], "fwd", [h.make_value_info("a", t)], [h.make_value_info("a", t)])
+        m = h.make_model(g, opset_imports=[h.make_operatorsetid("", 15)], ir_version=8)
+        r = list(inline(m)(op.optional(x)).values())[0]
+        return {"x": x}, {"o": op.optional_get_element(r)}, None
+    raise KeyError(name)
+
+
+def run_optional_case(name):
+    """-> (imports, failure message or None, model request or None, notes). Model-free part: the default domain
+    is imported at >= 14, at >= 16 when an optional value is forwarded by internal Identity nodes, and the model
+    passes the full check (an Identity of an optional value below 16 does not)."""
+    import onnx
+    from spox import build
+
+    req, notes = None, []
+    with Spies() as sp:
+        with warnings.catch_warnings():
+            warnings.simplefilter("ignore")
+            try:
+                ins, outs, fwd = build_optional_case(name)
+                sp.roots, sp.abe, sp.an, sp.ai, sp.stack = [], [], {}, {}, []
+                model = build(ins, outs)
+            except Exception as e:  # noqa: BLE001
+                return None, f"build raises {type(e).__name__}: {str(e).splitlines()[0][:120] if str(e) else ''}", None, notes
+        try:
+            if not sp.unobservable:
+                req, _nodes, notes = to_model_input(sp)
+        except Exception as e:  # noqa: BLE001
+            notes = [f"{type(e).__name__}: {e}"]
+    imports = [["" if o.domain == "ai.onnx" else o.domain, o.version] for o in model.opset_import]
+    d = dict(map(tuple, imports))
+    has_opt_identity = any(
+        n.op_type == "Identity" and any(vi.name in n.output and vi.type.HasField("optional_type")
+                                        for vi in list(model.graph.output) + list(model.graph.value_info))
+        for n in model.graph.node)
+    if d.get("", 0) < 14:
+        return imports, f"default domain imported at {d.get('')} < 14", req, notes
+    if (fwd or (fwd is None and has_opt_identity)) and d.get("", 0) < 16:
+        return imports, f"an optional-typed value is forwarded by internal Identity nodes but the default domain is imported at {d.get('')} < 16", req, notes
+    try:
+        onnx.checker.check_model(model, full_check=True)
+    except Exception as e:  # noqa: BLE001
+        return imports, f"checker rejects: {str(e).splitlines()[0][:140]}", req, notes
+    return imports, None, req, notes
+
+
+def check_optional(ck, drv, mismatches):
+    for name in OPTIONAL_CASES:
+        try:
+            imports, fail, req, notes = run_optional_case(name)
+        except Exception as e:  # noqa: BLE001
+            ck.broken("correspondence", "C09 optional floor not observable", f"{name}: {type(e).__name__}: {e}")
+            continue
+        ck.count(("optional", name))
+        if fail is not None:
+            ck.failure(f"optional-floor:{name}", f"{name}: {fail}", {"optional_case": name})
+        for n in [n_ for n_ in notes if "_Introduce nodes" not in n_][:2]:  # a user-level `intros` is a second _Introduce
+            mismatches.append(("structure", f"{name}: {n}"))
+        if req is not None and drv is not None and imports is not None and name != "optional-through-inline":
+            m = drv.ask("C09", {"t": "model", "graph": req, "extra": []})
+            if m.get("imports") != imports:
+                mismatches.append(("imports", f"{name}: real {imports} model {m.get('imports')}"))
+    return len(OPTIONAL_CASES)
+
+
 def check_schemas(ck, drv, info, mismatches):
     """Generated SCHEMAS table (driver) against onnx.defs directly, for every shipped operator."""
     import onnx.defs
@@ -1422,7 +1554,9 @@ def run(ck: core.Check):
                            "adapt_state": info.get("adapt_state"), "adapt_attr_writes": info.get("adapt_attr_writes")}
     ck.lean(["SpoxModel.Props.C09"], audit="SpoxModel.Audit.C09")
     if ck.thorough:
-        ck.leanchecker(["SpoxModel.Props.C09"])
+        ck.leanchecker(["SpoxModel.Props.C09", "SpoxModel.Lemmas.Opset", "SpoxModel.Lemmas.OpsetRename",
+                        "SpoxModel.Lemmas.OpsetFuncs", "SpoxModel.Lemmas.OpsetNames", "SpoxModel.Lemmas.OpsetMerge",
+                        "SpoxModel.Model.Opset"])
 
     mismatches: list[tuple[str, str]] = []
     try:
@@ -1434,6 +1568,7 @@ def run(ck: core.Check):
     n_policy = n_sch = 0
     if drv is not None:
         for name, fn in (("policy", lambda: check_policy(ck, drv, mismatches)),
+                         ("optional floor", lambda: check_optional(ck, drv, mismatches)),
                          ("schemas", lambda: check_schemas(ck, drv, info, mismatches))):
             try:
                 n = fn()
@@ -1609,6 +1744,10 @@ def replay(ck: core.Check, doc) -> bool:
         real = dict(max_opset_policy({(d, v) for d, v in r}))
         print("max_opset_policy:", real, "maximum per domain:", L.policy(r))
         return real != L.policy(r)
+    if "optional_case" in case:
+        imports, fail, _req, _notes = run_optional_case(case["optional_case"])
+        print(case["optional_case"], "imports", imports, "->", fail or "as required")
+        return fail is not None
     if "prog" not in case:
         print("obligation-level replay: re-run the check")
         return False
